@@ -100,9 +100,13 @@ struct Compiler {
 
 impl Compiler {
     fn new(max_group: usize) -> Compiler {
+        Self::with_options(max_group, Default::default())
+    }
+
+    fn with_options(max_group: usize, options: RegexOptions) -> Compiler {
         Compiler {
             b: VMBuilder::new(max_group),
-            options: Default::default(),
+            options,
         }
     }
 
@@ -521,7 +525,12 @@ pub(crate) fn compile_inner(inner_re: &str, options: &RegexOptions) -> Result<Ra
 
 /// Compile the analyzed expressions into a program.
 pub fn compile(info: &Info<'_>) -> Result<Prog> {
-    let mut c = Compiler::new(info.end_group);
+    compile_with_options(info, &RegexOptions::default())
+}
+
+/// Compile the analyzed expressions into a program, building delegates with the given options.
+pub(crate) fn compile_with_options(info: &Info<'_>, options: &RegexOptions) -> Result<Prog> {
+    let mut c = Compiler::with_options(info.end_group, options.clone());
     c.visit(info, false)?;
     c.b.add(Insn::End);
     Ok(c.b.build())
